@@ -8,7 +8,7 @@
   a collection, every rune index goes through these primitives.  Signed ranges (the sign split
   and the negation, including -MinInt64), the length bounds of slices, distinct slices, maps of
   values and strings, key distinctness and the Filter predicate are theorems too; the remaining
-  contracts (UTF-8, regexp, permutation, Make) are covered by the correspondence check +
+  contracts (regexp, Make, the unicode tables behind Rune/String) are covered by the correspondence check +
   monitor (see DESIGN.md for what is theorem and what is validated).
   Floats: floats.go is integer arithmetic on IEEE-754 bit patterns; `Float32Range`/`Float64Range`
   are modelled on bit patterns (RapidModel/Float.lean) and the theorems below give, for every bit
@@ -22,6 +22,7 @@ import RapidModel.Generated.Consts
 import RapidProofs.Contracts
 import RapidProofs.ContractsGen
 import RapidProofs.ContractsFloat
+import RapidProofs.ContractsGen2
 import RapidModel.Minimize
 
 namespace Rapid.C03
@@ -85,6 +86,22 @@ theorem filter_predicate_holds (e : Env) (lab : Bool) (g : Gen) (p : Val → Boo
 
 /-- the premises are satisfiable: `[MinInt64, MinInt64+1]`, and lengths `2 ≤ 5` -/
 example : (Int64.minValue ≤ Int64.minValue + 1) ∧ normMin 2 ≤ normMax 5 := by decide
+
+/-- `StringOfN`: at most `maxLen` bytes and only runes that have a UTF-8 encoding (no surrogates, nothing
+    beyond U+10FFFF, nothing negative) — whatever the element generator yields -/
+theorem stringOf_byte_length_and_valid_runes (e : Env) (lab : Bool) (elem : Gen) (lo hi ml : Int) (hmm : normMin lo ≤ normMax hi)
+    (src : Src) (ts : TS) (v : Val) (h : (((Gen.stringOf elem lo hi ml).body e lab).run src ts).res = .ok v) :
+    v.byteLen ≤ normMax ml ∧ v.allRunes := stringOf_bytes_and_runes e lab elem lo hi ml hmm src ts v h
+
+/-- `MapOfN`: pairwise distinct keys, size within the bounds -/
+theorem mapOf_distinct_keys_and_size (e : Env) (lab : Bool) (kg vg : Gen) (lo hi : Int) (hmm : normMin lo ≤ normMax hi)
+    (src : Src) (ts : TS) (v : Val) (h : (((Gen.mapOf kg vg lo hi).body e lab).run src ts).res = .ok v) :
+    Val.distinctBy entryKey v ∧ normMin lo ≤ v.length ∧ v.length ≤ normMax hi := mapOf_keys_distinct e lab kg vg lo hi hmm src ts v h
+
+/-- `Permutation`: the value is a permutation of the input -/
+theorem permutation_is_a_permutation (e : Env) (lab : Bool) (n : Nat) (hn : n ≤ 2 ^ 63) (src : Src) (ts : TS) (v : Val)
+    (h : (((Gen.perm n).body e lab).run src ts).res = .ok v) :
+    v.toList.Perm ((List.range n).map fun (i : Nat) => Val.int (Int.ofNat i)) := perm_is_permutation e lab n hn src ts v h
 
 /-! ### floats -/
 
